@@ -233,9 +233,15 @@ func runC06(c *core.Ctx) {
 	_ = kwNames
 
 	// (3) date layouts
-	for li, layout := range []string{"2006-01-02", "02.01.2006", "Jan 2 2006", "2006/01/02"} {
+	// incl. layouts that look like the default one with the fields in another order (a value such as 2021/03/03
+	// reads the same either way, 2021/01/03 does not), unpadded fields and a two-digit year
+	dm := []gen.Date{{Y: 2021, M: 1, D: 1}, {Y: 2021, M: 2, D: 2}, {Y: 2021, M: 2, D: 3}, {Y: 2021, M: 3, D: 2}, {Y: 2021, M: 12, D: 11}, {Y: 2021, M: 12, D: 12}}
+	for li, layout := range []string{"2006-01-02", "02.01.2006", "Jan 2 2006", "2006/01/02", "2006/02/01", "01/02/2006", "02/01/2006", "2006/1/2", "2006/2/1", "06/01/02", "2006-02-01", "20060102"} {
 		r := c.Rng("layout", li)
 		w := windows[0]
+		if li%2 == 0 {
+			w = dm
+		}
 		log := c06Log(r, w, 8)
 		for k := 0; k < c.N(6, 30); k++ {
 			b, e := w[r.Intn(6)], w[r.Intn(6)]
@@ -451,15 +457,41 @@ func c06SummaryNoToday(c *core.Ctx, zones []string) {
 			pre = append(pre, "--date-format", layout)
 		}
 		ref := run.Exec(c.HR, append(append(append([]string{}, pre...), "-l", "logr.yaml"), "summary", arg), run.ExecOpts{Dir: dir, Env: map[string]string{"TZ": "UTC"}})
-		for _, z := range zones {
-			args := append(append(append([]string{}, pre...), "-l", "log.yaml"), "summary", arg)
-			res := run.Exec(c.HR, args, run.ExecOpts{Dir: dir, Env: map[string]string{"TZ": z}})
-			c.Eval(2)
-			c.Count("runs_summary_without_today", 1)
-			c.Nontrivial("summary-no-today", z, fmt.Sprint(li))
-			if res.Out != ref.Out || res.Exit != ref.Exit || ref.Exit != 0 {
-				c.Violation("summary|day-selection", fmt.Sprintf("summary %q without --today, TZ=%s, layout %q: differs from the summary of the log restricted to that calendar day", arg, z, layout),
-					caseDoc{Files: files, Args: args, Env: map[string]string{"TZ": z}, Expected: resDoc(ref), Observed: resDoc(res)})
+		fmtD := func(d gen.Date) string {
+			if layout != "2006/01/02" {
+				return d.Format("2006/01/02") + " 00:00"
+			}
+			return d.Format("2006/01/02")
+		}
+		// the day named to summary is the selection, whatever period the global flags name
+		periods := [][]string{nil, {"-b", fmtD(d0.AddDays(2))}, {"-e", fmtD(d0)}, {"-b", fmtD(d0.AddDays(2)), "-e", fmtD(d0.AddDays(2))}, {"--begin", fmtD(d0.AddDays(1)), "--end", fmtD(d0.AddDays(1))}, {"-b", fmtD(d0.AddDays(-30)), "-e", fmtD(d0.AddDays(30))}}
+		for zi, z := range zones {
+			for pi, period := range periods {
+				if pi > 0 && (pi+zi)%3 != 0 {
+					continue
+				}
+				args := append(append(append(append([]string{}, pre...), "-l", "log.yaml"), period...), "summary", arg)
+				what := fmt.Sprintf("summary %q without --today", arg)
+				if pi == len(periods)-1 {
+					// and through a keyword
+					args = append(append(append(append([]string{}, pre...), "-l", "log.yaml", "--today", fmtD(d0.AddDays(2))), "-b", "today"), "summary", "yesterday")
+					what = fmt.Sprintf("--today %s -b today summary yesterday", fmtD(d0.AddDays(2)))
+				} else if pi > 0 {
+					what = fmt.Sprintf("%s summary %q", joinArgs(period), arg)
+					c.Count("runs_summary_under_a_global_period", 1)
+				}
+				res := run.Exec(c.HR, args, run.ExecOpts{Dir: dir, Env: map[string]string{"TZ": z}})
+				c.Eval(2)
+				c.Count("runs_summary_without_today", 1)
+				c.Nontrivial("summary-no-today", z, fmt.Sprint(li, pi))
+				if res.Out != ref.Out || res.Exit != ref.Exit || ref.Exit != 0 {
+					sig := "summary|day-selection"
+					if pi > 0 {
+						sig = "summary|day-selection-under-a-global-period"
+					}
+					c.Violation(sig, fmt.Sprintf("%s, TZ=%s, layout %q: differs from the summary of the log restricted to that calendar day", what, z, layout),
+						caseDoc{Files: files, Args: args, Env: map[string]string{"TZ": z}, Expected: resDoc(ref), Observed: resDoc(res)})
+				}
 			}
 		}
 	}
